@@ -35,7 +35,7 @@ ASSUMPTIONS = [
     "'empty' feature excluded; CPU only",
 ]
 PROBES = ["feature_schedule", "hedger_schedule", "recurrent_log", "recurrent_after_fault", "H2", "listed_hedge",
-          "other_use_between", "prev_hedge_not_last", "loss_compared", "ww_model", "bound_feature_reused"]
+          "other_use_between", "prev_hedge_not_last", "loss_compared", "ww_model", "bound_feature_reused", "steps_out_of_order"]
 
 
 class SimFault(Exception):
@@ -88,11 +88,11 @@ def generate(rng):
                     inner = rng.sample(adm, rng.randint(1, 2))
                     f = {"f": "module_output", "module": {"kind": "linear", "in": len(inner), "out": 1, "init_seed": rng.seed31()},
                          "inputs": inner}
-            ops.append({"op": "feature_sched", "feature": f, "derivative": "d0"})
+            ops.append({"op": "feature_sched", "feature": f, "derivative": "d0", "order_seed": rng.seed31()})
             if rng.chance(0.5):
                 # the same bound feature object again, after a re-simulation of the same shape
                 ops.append({"op": "simulate", "target": "d0", "n_paths": n0, "torch_seed": rng.seed31()})
-                ops.append({"op": "feature_sched", "feature": f, "derivative": "d0"})
+                ops.append({"op": "feature_sched", "feature": f, "derivative": "d0", "order_seed": rng.seed31()})
         elif k == "hedger_sched":
             ops.append({"op": "hedger_sched", "hedger": "h0", "derivative": "d0", "hedge": hedge})
         else:
@@ -268,9 +268,24 @@ def _execute(program, stats, hist):
             rtol, atol = _tol(dtype, loose)
             scale = (T - 1) * dtv if _depends_on_time(op["feature"]) and not loose else 0.0
             try:
+                # single-step queries in a seeded random order (and the all-steps query at a random position): the result of
+                # get(i) must not depend on which steps were asked before
+                from ..prng import PRNG as _P
+                _r = _P(op.get("order_seed", 1))
+                order = _r.shuffle(list(range(T))) if op.get("order_seed") else list(range(T))
+                if order != sorted(order):
+                    stats.probe("steps_out_of_order")
                 with torch.no_grad():
-                    allv = f.get(None)
-                    steps = [f.get(i) for i in range(T)]
+                    got = {}
+                    pos = _r.randint(0, T)
+                    allv = None
+                    for j, i in enumerate(order):
+                        if j == pos:
+                            allv = f.get(None)
+                        got[i] = f.get(i)
+                    if allv is None:
+                        allv = f.get(None)
+                    steps = [got[i] for i in range(T)]
             except Exception as e:
                 raise Violation(ID, "op_raised", "feature:%s:%s" % (fname, type(e).__name__), {"error": repr(e)}, seq)
             stats.probe("feature_schedule", T)
